@@ -209,8 +209,71 @@ ASSUMPTIONS = [
     "result, so a local holding the result can be read as the call",
 ]
 
+EXPLANATION += (
+    "  R20.24 (rules/c20_state.py; state not shared across merges / cache "
+    "keys cover every input): in every module of pytype/tools/merge_pyi/ "
+    "(tests excluded) the holders of state that outlives a call are "
+    "inventoried - module-level names and class-body attributes bound to a "
+    "mutable container, names re-bound under `global`, attributes stored on a "
+    "module-level class or function, mutable default values, module-level "
+    "instances of a module class whose methods write self.<attr> outside "
+    "__init__ or of a libcst dataclass with list/dict/set fields (read from "
+    "the installed libcst).  For a holder some function writes, every store "
+    "must be keyed and the key must depend on every parameter (and other "
+    "written holder) the stored value depends on (flow-insensitive data "
+    "dependence through the function's locals, calls that may mutate their "
+    "arguments, tests of enclosing compound statements); an unkeyed store of "
+    "a parameter-dependent value that anything reads back, a read that "
+    "delivers stored content regardless of a key (iteration, values(), "
+    "handing the container on) and a stateful shared instance used by a "
+    "function are violations; size tests, clear/pop/del and stores that "
+    "depend on no parameter are harmless.  (A memo of the pre-filtered stub "
+    "keyed by the stub text alone serves the stub filtered against an earlier "
+    "source's class statements to a later source.)  Blind spots: a key that "
+    "mentions an input but loses information (len(x)); free variables read "
+    "by callees of the cached computation; state kept in closures, on "
+    "objects reachable from arguments, or outside pytype/tools/merge_pyi/; "
+    "functools caches, module-level objects of unknown mutability that a "
+    "function uses are refused.  The model run of R20.1/R20.4/R20.22/R20.23 "
+    "still refuses a pipeline that tests remembered state (one path no "
+    "longer stands for every call).  R20.25 (rules/c20_spelling.py; two-site "
+    "agreement printer <-> hiding transformer): QuoteNestedClassesTransformer "
+    "hides only Attribute chains rooted at a stub class, so for a name that "
+    "LookupItemRecursive(self._unit, ..) resolves (a class nested in a class "
+    "of the stub) PrintVisitor.VisitNamedType and VisitClassType must return "
+    "node.name itself on every path.  Decided by abstract evaluation of the "
+    "method and of every helper (method of PrintVisitor, function of "
+    "printer.py) a value derived from the node reaches, over all paths, with "
+    "the value domain {node.name, derived-from-it, constant, unknown} in the "
+    "world 'the name is dotted and the unit lookup resolves it' (handlers of "
+    "the try holding the lookup are not taken, `\".\" in name` holds, "
+    "name == <constant without a dot> does not, a part of the name == "
+    "<constant> does not); a derived spelling that can be returned "
+    "(removeprefix, rpartition, slices, f-strings - `Inner` inside `class "
+    "Outer`) is a violation, a constant or unknown value an ANALYSIS-ERROR.  "
+    "R20.23's printer premise is read from the same analysis.  Blind spots: "
+    "spellings chosen through printer state (self.<attr>) or foreign helpers "
+    "are refused, not judged; VisitLateType and the text assembled around the "
+    "name (GenericType, signatures) are not looked at.")
+ASSUMPTIONS += [
+    "a value stored in a container that outlives a call is a function of the "
+    "inputs the rule's dependence closure finds (parameters of the storing "
+    "function, other written state holders); helper callees are pure with "
+    "respect to module state (R20.24)",
+    "libcst's CSTVisitor/CSTTransformer base classes keep no per-visit state "
+    "in the instance, so an instance of a module class whose own methods "
+    "write no self attribute outside __init__ may be shared (R20.24)",
+    "the string constants PrintVisitor compares parts of a dotted name with "
+    "(builtins, typing, typing_extensions, ..) are names of foreign modules, "
+    "never of a class of the unit being printed, and a dotted name is never "
+    "equal to a constant without a dot (R20.25)",
+    "pytd dispatches VisitNamedType / VisitClassType by node class name with "
+    "the node as only argument, and node.name of a class nested in a class of "
+    "the unit is its dotted path from the top-level class (R20.25)",
+]
+
 MP = "pytype/tools/merge_pyi/merge_pyi.py"
-REQUIRED_FILTERS = ("RemoveAnyNeverTransformer", "RemoveTrivialTypesTransformer")
+REQUIRED_FILTERS =("RemoveAnyNeverTransformer", "RemoveTrivialTypesTransformer")
 APPLY = "ApplyTypeAnnotationsVisitor"
 
 
